@@ -22,7 +22,7 @@ props.prop(
     not_decided='semantic drift of a key whose name is unchanged; objects generated at run time',
     assumptions=['registrations are made by the decorators at import time, in source order'])
 props.also('C12',
-           'that registry.disable restores the value it saved; the loaded layout of fields read by several loader versions (tuple vs single identifier)')
+           'that registry.disable restores the value it saved; the loaded layout of fields read by several loader versions (tuple vs single identifier); that the version-1 upgrade hands label, style and state to the new group unchanged; that what a version\'s saver stored whole under one reference is not wrapped again by that version\'s loader')
 
 SAVER_ONLY = {'glue.core.session.Session': 'repopulated by the application on load (saver writes {})'}
 STATE = 'glue.core.state'
